@@ -11,6 +11,11 @@ def gen_scenarios(rnd, n, start_id=1):
         s = netgen.gen(rnd, start_id + i)
         if i % 4 == 0:
             s["all"] = False          # report grid instead of every solved step
+        if i % 5 == 1 and s["mode"] == "DD":
+            # linear pattern interpolation, pattern step a multiple of or unrelated to the hydraulic step
+            s["interp"] = True
+            s["Pat"] = rnd.choice([2 * s["H"], 3 * s["H"], 5400, s["H"]])
+            s["PatStart"] = rnd.choice([0, s["Pat"], 900, 2 * s["Pat"] + 1200])
         out.append(s)
     return out
 
